@@ -118,7 +118,7 @@ def cased(word):
 
 @st.composite
 def fragment(draw, specials=()):
-    kind = draw(st.sampled_from(['word', 'word', 'word', 'multi', 'digits', 'digits', 'year', 'walk', 'context', 'near_context', 'email',
+    kind = draw(st.sampled_from(['word', 'word', 'word', 'multi', 'digits', 'digits', 'year', 'yearish', 'walk', 'context', 'near_context', 'email',
                                  'web', 'symbol', 'symbol', 'unidigit', 'text'] + ['special'] * (1 if specials else 0)))
     if kind == 'word':
         return draw(cased(draw(st.sampled_from(WORDS))))
@@ -130,6 +130,10 @@ def fragment(draw, specials=()):
         return draw(st.text('0123456789', min_size=1, max_size=6))
     if kind == 'year':
         return draw(st.sampled_from(['19', '20'])) + draw(st.text('0123456789', min_size=2, max_size=2))
+    if kind == 'yearish':
+        # digit runs made of year prefixes and years: overlapping candidates (1919dd, 20202019, 192019 ...)
+        k = draw(st.integers(2, 4))
+        return ''.join(draw(st.sampled_from(['19', '20', '1985', '2020', '2019', '1919', '0', '7', '85'])) for _ in range(k))
     if kind == 'walk':
         return draw(walk())
     if kind == 'context':
